@@ -356,3 +356,24 @@ check(
                 "and compared with brute-force definitions; held on the evaluations counted in the evidence."),
     level_note="trusted: std::sort in the brute-force references; long double sums for Pearson",
 )
+
+check(
+    "C17",
+    runs=[dict(harness="C17_math", flavour="plain")],
+    rule=("each function of the math toolbox (abs, abs2, angle, exp, expj, log/log2/log10, every power overload incl. array forms, tanh, round, "
+          "sum, cumsum, dot, mean, stddev, rms, norm p=1,2,3,4,7, min/max/argmin/argmax/peak2peak real and complex, pow2db/db2pow/mag2db/db2mag, "
+          "deg2rad/rad2deg, real/imag/conj/complex, linspace, arange, repelem, flip, upsample/downsample, zeropad, delayseq) on random arguments "
+          "with log-uniform magnitudes 1e-100..1e100 and the special points 0, -0, +-1, +-i, the axes of the complex plane and the negative "
+          "real axis with +0/-0 imaginary part, integer and fractional exponents in [-8,8], lengths 1..1000, compared with the long-double "
+          "value of the definition (tolerance k*eps*scale); shape functions exhaustively for n<=12 (all factors/phases/shifts), linspace "
+          "n=1..100, the integer arange cube [-12,12]^3 and fractional aranges with integral count; inverse pairs round-trip. "
+          "distinct = (function, argument bits)."),
+    exhaustive_subspaces={"quick": ["upsample/downsample/repelem/delayseq/zeropad/flip for every n<=12, factor, phase, shift", "linspace n=1..100"],
+                          "thorough": ["upsample/downsample/repelem/delayseq/zeropad/flip for every n<=12, factor, phase, shift", "linspace n=1..100", "integer arange for every start, stop, step in [-12,12]"]},
+    min_distinct={"quick": 300000, "thorough": 2000000},
+    technique="runtime monitor: long-double evaluation of each mathematical definition as oracle with rounding-model tolerances",
+    level_text=("Every toolbox function is executed on special points and log-uniform random arguments and compared with its definition "
+                "in extended precision; shape functions are enumerated for small sizes. Held on the evaluations counted in the evidence."),
+    level_note="trusted: long double libm (expl, logl, powl, atan2l ...); complex dot is taken as the bilinear sum the library documents by its use (no conjugation)",
+    assumptions=["arguments whose squares or powers overflow are not generated; delayseq is only instantiable for real arrays"],
+)
